@@ -1,5 +1,9 @@
-import Qryn.Proofs.ProfBFSComplete
+import Qryn.Proofs.ProfDiffE2E
+import Qryn.Proofs.ProfWrap64
+import Qryn.Proofs.PprofWellFormed
 import Qryn.Gen.ProfTreeShape
+import Qryn.Gen.ProfExtShape
+import Qryn.Prof.ExtPins
 /-! # C16 — profile call trees conserve weight from ingest to flame graph
 
 Property theorems only. Model: `Qryn.Prof` (lean/Qryn/Prof/Tree.lean) —
@@ -21,6 +25,19 @@ variable (nid : Nat → Nat → Nat → Nat) (k : Bool) (na : Nat)
 /-- the translator found the loops of `postProcessProf`, `getNodeId`, `MergeTrie` and `BFS` in the statement
     shape the model mirrors (this module does not build otherwise) -/
 theorem model_shape_recognised : Gen.ProfTreeShape.recognised = true := rfl
+
+/-- the functions the models of the DIFF view and of the pprof payload merge mirror (`synchronizeNames`, `mergeNodes`,
+    `mergeChildren`, `computeFlameGraphDiff`, `ProfileMergeV2.Merge`/`Profile`, `RewriteTableV2.Get`, `sanitizeProfile`,
+    the key functions …) have the bodies the models were reviewed against, and the entry points wire them as modelled -/
+theorem ext_shape_pinned : Gen.ProfExtShape.bodyHashes = reviewedBodies ∧ Gen.ProfExtShape.entryPointsRecognised = true :=
+  ⟨by decide, rfl⟩
+
+/-- the four repairs of the pprof payload merge are in the source: the hashing helpers guard the empty stack / the
+    location without lines (no index fault), and every string index of a merged sample label and of the merged header is
+    taken through `strIdx` (`merge_refs_valid` is about the code with them) -/
+theorem pprof_repairs_present :
+    Gen.ProfExtShape.emptyStackGuard = true ∧ Gen.ProfExtShape.emptyLinesGuard = true
+      ∧ Gen.ProfExtShape.numUnitReindexed = true ∧ Gen.ProfExtShape.headerReindexed = true := ⟨rfl, rfl, rfl, rfl⟩
 
 /-- `getNodeId` never returns the root's id 0: the depth bits `min(depth,511) << 55` are non-zero
     (constants regenerated from golangPprof.go). Discharges `NeverRoot` for the real id function. -/
@@ -262,6 +279,528 @@ theorem flamegraph_complete (hnr : NeverRoot nid) (Ps : List Profile) (j : Nat) 
     ∃ L, (bfs (mergeTrie [] R'))[depOf (allVisits nid k na Ps) e.node]? = some L ∧ e ∈ L.map (·.1) := by
   have hp := (merge_order_free nid k na Ps j hc R' hperm).1
   exact bfs_complete ((merged_treeShaped (j := j) Ps hc hnr).perm hp) e he
+
+
+/-! ## the node cap and the name cap of `MergeTrie` -/
+
+/-- **cap_is_prefix.** Under the node cap (`Gen.ProfTree.maxNodes` = 2 000 000) `MergeTrie` merges a PREFIX of the rows
+    exactly as without a cap and ignores the rest: the prefix ends before the first row that would add a node while
+    `maxNodes` nodes exist. Every later row is dropped — also rows that would only add weight to a node already there. -/
+theorem cap_is_prefix (R : List Row) :
+    ∃ n, n ≤ R.length ∧ mergeTrieCap Gen.ProfTree.maxNodes [] 0 R = mergeTrie [] (R.take n)
+      ∧ (n = R.length ∨ (Gen.ProfTree.maxNodes ≤ (mergeTrie [] (R.take n)).length
+            ∧ ∃ r, R[n]? = some r ∧ ∀ a ∈ mergeTrie [] (R.take n), rkey a ≠ rkey r)) :=
+  mergeTrieCap_prefix Gen.ProfTree.maxNodes R []
+
+/-- the merge law one would like for inputs of any size: the merged root total is the sum of the root rows read -/
+def merge_any_size_full : Prop :=
+  ∀ R : List Row, rootTotal (mergeTrieCap Gen.ProfTree.maxNodes [] 0 R) = fsum R (fun r => decide (r.parent = 0)) (·.total)
+
+/-- … holds for at most `maxNodes` rows (all theorems of the section "merging" then apply, `merge_cap_not_reached`) -/
+theorem merge_any_size_partial (R : List Row) (h : R.length ≤ Gen.ProfTree.maxNodes) :
+    rootTotal (mergeTrieCap Gen.ProfTree.maxNodes [] 0 R) = fsum R (fun r => decide (r.parent = 0)) (·.total) := by
+  rw [merge_cap_not_reached R h]
+  exact mergeTrie_total R (fun kk => decide (kk.1 = 0))
+
+/-- … and fails above it (recorded finding `C16/node-cap-drops-weight`): `maxNodes + 1` children of the root, each
+    of weight 1 — the root total is `maxNodes`, one short. The weight is lost silently. -/
+theorem merge_any_size_counterexample : ¬ merge_any_size_full :=
+  fun h => capWitness_breaks Gen.ProfTree.maxNodes (h _)
+
+/-- **cap_conservation_pregrouped.** What conservation becomes under the cap on the production path (rows pre-grouped
+    by ClickHouse: one row per (parent, node), so the merged tree is the row prefix itself): a kept node still has
+    total = self + kept children + the totals of its DROPPED children — its own numbers are right, but the dropped part
+    of its weight has no bar, so the children no longer fill the parent and the bars to the right shift. -/
+theorem cap_conservation_pregrouped (R : List Row) (hnd : (R.map rkey).Nodup)
+    (hT : ∀ e ∈ R, e.total = e.self + sumTotals (children R e.node)) :
+    ∃ n, n ≤ R.length ∧ mergeTrieCap Gen.ProfTree.maxNodes [] 0 R = R.take n
+      ∧ ∀ e ∈ R.take n, e.total = e.self + sumTotals (children (R.take n) e.node) + sumTotals (children (R.drop n) e.node) := by
+  obtain ⟨n, hn, he, _⟩ := cap_is_prefix R
+  have hnd' : ((R.take n).map rkey).Nodup := hnd.sublist ((List.take_sublist n R).map rkey)
+  refine ⟨n, hn, by rw [he, mergeTrie_nodup_id _ hnd'], ?_⟩
+  intro e he'
+  rw [hT e (List.mem_of_mem_take he'), children_take_drop R n e.node]
+  omega
+
+/-- **name_cap_is_prefix.** Under the name cap the table is the first `maxNames` entries of the table without a cap;
+    a function beyond it has no entry (`nameIndex` 0: its bars show the name at index 0, "total"). No weight is involved. -/
+theorem name_cap_is_prefix (fns : List (Nat × String)) :
+    mergeNameTab Gen.ProfTree.maxNames [] fns = (mergeNameTab (fns.length) [] fns).take Gen.ProfTree.maxNames :=
+  mergeNameTab_take Gen.ProfTree.maxNames fns.length fns [] (by simp) (by simp)
+
+/-! ## `maxSelf`, and two sample types of one name -/
+
+/-- `MergeTrie`'s `maxSelf` is the largest `self` among the ROWS read (or 0) … -/
+theorem maxSelf_is_max_of_rows (rows : List Row) :
+    0 ≤ maxSelf 0 rows ∧ (∀ r ∈ rows, r.self ≤ maxSelf 0 rows)
+      ∧ (maxSelf 0 rows = 0 ∨ ∃ r ∈ rows, maxSelf 0 rows = r.self) :=
+  ⟨maxSelf_ge_init 0 rows, maxSelf_ge_row 0 rows, maxSelf_attained 0 rows⟩
+
+/-- … which on the production path (rows pre-grouped, one per node) is the largest self of the merged NODES -/
+theorem maxSelf_pregrouped_exact (rows : List Row) (hnd : (rows.map rkey).Nodup) :
+    (∀ e ∈ mergeTrie [] rows, e.self ≤ maxSelf 0 rows)
+      ∧ (maxSelf 0 rows = 0 ∨ ∃ e ∈ mergeTrie [] rows, maxSelf 0 rows = e.self) := by
+  rw [mergeTrie_nodup_id rows hnd]
+  exact ⟨maxSelf_ge_row 0 rows, maxSelf_attained 0 rows⟩
+
+/-- … but NOT in general: when a node's weight arrives in several rows (one `MergeTrie` call per profile, no GROUP BY)
+    the merged node's self can exceed `maxSelf` (3 + 3 = 6 > 3). Only the colour scale of the client uses it. -/
+theorem maxSelf_ungrouped_counterexample :
+    ∃ rows : List Row, ∃ e ∈ mergeTrie [] rows, maxSelf 0 rows < e.self :=
+  ⟨[⟨0, 1, 1, 3, 3⟩, ⟨0, 1, 1, 3, 3⟩], ⟨0, 1, 1, 6, 6⟩, by decide, by decide⟩
+
+/-- **first_by_name.** The reader selects a sample type by its `type:unit` NAME (`arrayFirst`): the position it reads is
+    the first one carrying the name, so every theorem about `typeRows j` applies with that `j`; a second sample type of the
+    same name is never read (no request can name it), and an unknown name reads zeros. -/
+theorem first_by_name (names : List String) (name : String) (n : Node) :
+    typeRowByName names name n = typeRow (firstIdx names name) n
+      ∧ (∀ i, i < firstIdx names name → names[i]? ≠ some name)
+      ∧ (firstIdx names name < names.length → names[firstIdx names name]? = some name)
+      ∧ (name ∉ names → firstIdx names name = names.length) :=
+  ⟨rfl, firstIdx_spec names name⟩
+
+/-! ## the DIFF view (`synchronizeNames`, `mergeNodes`, `computeFlameGraphDiff`) -/
+
+/-- **mergeNodes_aligns.** For every parent id, after `mergeNodes` the two children slices have the same length and
+    the same node ids position by position, strictly ascending; the ids are exactly the union of the two sides' ids; a
+    position is the side's own node, or — when the side lacks the id — a zero-weight node; nothing is lost or repeated,
+    and each side keeps the sum of its totals. Holds for ALL pairs of trees with duplicate-free (parent, node) keys,
+    which is what `MergeTrie` builds (`merge_sums`). -/
+theorem mergeNodes_aligns (T1 T2 : List Row) (h1 : (T1.map rkey).Nodup) (h2 : (T2.map rkey).Nodup) (p : Nat) :
+    AlignedSpec T1 T2 p := alignedSpec T1 T2 h1 h2 p
+
+/-- **diff_bars_faithful.** Every bar the diff emits (any two trees) is the root bar or a pair of `mergeNodes`: its left
+    numbers are the left tree's numbers of that (parent, node) — or zeros when the left tree has no such node — and
+    the same on the right. So the diff's left/right totals per node are the corresponding tree's totals. -/
+theorem diff_bars_faithful (T1 T2 : List Row) (h1 : (T1.map rkey).Nodup) (h2 : (T2.map rkey).Nodup) :
+    ∀ q ∈ diffItems T1 T2, q = rootOf T1 T2 ∨
+      (q.left.node = q.right.node ∧ q.left.parent = q.right.parent
+        ∧ (q.left ∈ T1 ∨ (q.left.self = 0 ∧ q.left.total = 0 ∧ ∀ a ∈ T1, rkey a ≠ rkey q.left))
+        ∧ (q.right ∈ T2 ∨ (q.right.self = 0 ∧ q.right.total = 0 ∧ ∀ b ∈ T2, rkey b ≠ rkey q.right))) := by
+  intro q hq
+  have := diffLoop_items_pairs T1 T2 h1 h2 _ [rootOf T1 T2] (by
+    intro x hx; simp only [List.mem_singleton] at hx; subst hx; exact ⟨rfl, Or.inl rfl⟩) q hq
+  rcases this.2 with h | ⟨p, hp⟩
+  · exact Or.inl h
+  · right
+    obtain ⟨hn, hpl, hpr, hL, hR⟩ := (alignedSpec T1 T2 h1 h2 p).pair _ hp
+    simp only [] at hn hpl hpr hL hR
+    refine ⟨hn, hpl.trans hpr.symm, ?_, ?_⟩
+    · rcases hL with h | h
+      · exact Or.inl (mem_children.mp h).1
+      · refine Or.inr ⟨by rw [h.1]; rfl, by rw [h.1]; rfl, ?_⟩
+        intro a ha e
+        have e' : a.parent = q.left.parent ∧ a.node = q.left.node := by simpa [rkey] using e
+        exact h.2 a (mem_children.mpr ⟨ha, e'.1.trans hpl⟩) e'.2
+    · rcases hR with h | h
+      · exact Or.inl (mem_children.mp h).1
+      · refine Or.inr ⟨by rw [h.1]; rfl, by rw [h.1]; rfl, ?_⟩
+        intro b hb e
+        have e' : b.parent = q.right.parent ∧ b.node = q.right.node := by simpa [rkey] using e
+        exact h.2 b (mem_children.mpr ⟨hb, e'.1.trans hpr⟩) e'.2
+
+/-- **diff_totals.** `leftTicks` / `rightTicks` are the two trees' root totals, `total` their sum, level 0 the bar
+    `[0, left, 0, 0, right, 0, ·]`. -/
+theorem diff_totals (T1 T2 : List Row) (n1 n2 : NameTab) (h1 : (T1.map rkey).Nodup) (h2 : (T2.map rkey).Nodup)
+    (d : DiffOut) (hd : renderDiff T1 T2 n1 n2 = some d) :
+    d.leftTicks = rootTotal T1 ∧ d.rightTicks = rootTotal T2 ∧ d.total = rootTotal T1 + rootTotal T2 := by
+  unfold renderDiff at hd
+  split at hd
+  · cases hd
+  · cases hd
+    have eL := (alignedSpec T1 T2 h1 h2 0).sumL
+    have eR := (alignedSpec T1 T2 h1 h2 0).sumR
+    simp only [computeDiff, ticks, eL, eR]
+    exact ⟨rfl, rfl, rfl⟩
+
+/-- the diff is refused exactly when some node of either tree has a negative self value (`assertPositive`) -/
+theorem diff_refused_iff (T1 T2 : List Row) (n1 n2 : NameTab) :
+    renderDiff T1 T2 n1 n2 = none ↔ (∃ e ∈ T1, e.self < 0) ∨ (∃ e ∈ T2, e.self < 0) := by
+  unfold renderDiff assertPositive
+  constructor
+  · intro h
+    split at h
+    · rename_i hc
+      simp only [Bool.or_eq_true, Bool.not_eq_true', List.all_eq_false, decide_eq_true_eq, Int.not_le] at hc
+      exact hc
+    · cases h
+  · intro h
+    rw [if_pos]
+    simp only [Bool.or_eq_true, Bool.not_eq_true', List.all_eq_false, decide_eq_true_eq, Int.not_le]
+    exact h
+
+section DiffShape
+variable {T1 T2 : List Row} {dep : Nat → Nat}
+
+/-- **diff_every_node_once.** For tree-shaped inputs that agree on parents (what collision-free profiles give,
+    `diff_end_to_end`): the first bar is the root bar; the bars after it carry pairwise different node ids, and these are
+    exactly the node ids of the left tree together with those of the right tree — every node of either tree appears
+    exactly once. -/
+theorem diff_every_node_once (t1 : TreeShaped T1 dep) (t2 : TreeShaped T2 dep) (hc : Compatible T1 T2)
+    (h1 : (T1.map rkey).Nodup) (h2 : (T2.map rkey).Nodup) :
+    (diffItems T1 T2).head? = some (rootOf T1 T2)
+      ∧ (((diffItems T1 T2).tail).map (·.left.node)).Nodup
+      ∧ ∀ x, x ∈ ((diffItems T1 T2).tail).map (·.left.node) ↔ x ∈ T1.map (·.node) ∨ x ∈ T2.map (·.node) :=
+  diffItems_once t1 t2 hc h1 h2
+
+/-- **diff_fuel_suffices.** The Go loop has no bound; the model's is never what ends it on tree-shaped input: any
+    larger bound gives the same bars — the levels of the aligned trees one after the other (breadth first). -/
+theorem diff_fuel_suffices (t1 : TreeShaped T1 dep) (t2 : TreeShaped T2 dep) (hc : Compatible T1 T2)
+    (h1 : (T1.map rkey).Nodup) (h2 : (T2.map rkey).Nodup) (extra : Nat) :
+    diffLoop (kidsL T1 T2) (kidsR T1 T2) (T1.length + T2.length + 2 + extra) [rootOf T1 T2] = diffItems T1 T2
+      ∧ diffItems T1 T2 = walkItems (kidsL T1 T2) (kidsR T1 T2) (maxDep (alignedL T1 T2) dep + 1) [rootOf T1 T2] := by
+  refine ⟨?_, diffItems_eq t1 t2 hc h1 h2⟩
+  rw [diffLoop_walk t1 t2 hc h1 h2 _ (by omega), diffItems_eq t1 t2 hc h1 h2]
+
+/-- **diff_levels_are_generations.** The bars filed under level `k` of the output (`res.Levels[k]`) are exactly the
+    k-th generation of the walk, in order: the statements about `itemLevel k` below are statements about the levels
+    the client receives. -/
+theorem diff_levels_are_generations (t1 : TreeShaped T1 dep) (t2 : TreeShaped T2 dep) (hc : Compatible T1 T2)
+    (h1 : (T1.map rkey).Nodup) (h2 : (T2.map rkey).Nodup) (k : Nat) (hk : k ≤ maxDep (alignedL T1 T2) dep) :
+    (diffItems T1 T2).filter (fun q => q.level == k) = itemLevel (kidsL T1 T2) (kidsR T1 T2) k [rootOf T1 T2] := by
+  rw [diffItems_eq t1 t2 hc h1 h2]
+  exact walk_filter_level h1 h2 _ k (by omega)
+
+/-- **diff_sides_conserve.** If both input trees conserve weight (and are parent-closed, non-negative, agree on
+    parents) then every bar of the diff conserves weight on BOTH sides over its child bars: left total = left self + the
+    left totals of its children, right likewise — also for the zero bars standing for nodes a side lacks. -/
+theorem diff_sides_conserve (F1 : SideFacts T1) (F2 : SideFacts T2) (hc : Compatible T1 T2)
+    (h1 : (T1.map rkey).Nodup) (h2 : (T2.map rkey).Nodup) (i : Nat) :
+    ∀ q ∈ itemLevel (kidsL T1 T2) (kidsR T1 T2) i [rootOf T1 T2],
+      q.left.total = q.left.self + sumTotals ((kidItems (kidsL T1 T2) (kidsR T1 T2) q).map (·.left))
+        ∧ q.right.total = q.right.self + sumTotals ((kidItems (kidsL T1 T2) (kidsR T1 T2) q).map (·.right)) := by
+  intro q hq
+  have hs := (level_inv T1 T2 h1 h2 i q hq).1
+  have hl := left_ok F1 F2 hc h1 h2 i q hq
+  have hr := right_ok F1 F2 hc h1 h2 i q hq
+  have ka := kidItems_aligned T1 T2 q hs
+  have eL : (kidItems (kidsL T1 T2) (kidsR T1 T2) q).map (·.left) = (kidsL T1 T2 q.left.node).reverse := by
+    have : (kidItems (kidsL T1 T2) (kidsR T1 T2) q).map (·.left) = ((kidItems (kidsL T1 T2) (kidsR T1 T2) q).map viewL).map (·.1) := by
+      rw [List.map_map]; rfl
+    rw [this, ka.2.1, placeFrom_rows]
+  have eR : (kidItems (kidsL T1 T2) (kidsR T1 T2) q).map (·.right) = (kidsR T1 T2 q.right.node).reverse := by
+    have : (kidItems (kidsL T1 T2) (kidsR T1 T2) q).map (·.right) = ((kidItems (kidsL T1 T2) (kidsR T1 T2) q).map viewR).map (·.1) := by
+      rw [List.map_map]; rfl
+    rw [this, ka.2.2.1, placeFrom_rows, hs]
+  rw [eL, eR, sumTotals_reverse, sumTotals_reverse]
+  exact ⟨hl.1, hr.1⟩
+
+/-- **diff_levels_nest.** Under the same hypotheses the levels nest on both sides: every bar of level i+1 lies inside
+    the span of a bar of level i that is its parent — in the left coordinates and in the right coordinates — and the
+    bars of a level do not overlap on either side (`viewL`/`viewR` = the node with its absolute left/right offset). -/
+theorem diff_levels_nest (F1 : SideFacts T1) (F2 : SideFacts T2) (hc : Compatible T1 T2)
+    (h1 : (T1.map rkey).Nodup) (h2 : (T2.map rkey).Nodup) (i : Nat) :
+    ((∀ c ∈ (itemLevel (kidsL T1 T2) (kidsR T1 T2) (i + 1) [rootOf T1 T2]).map viewL,
+        ∃ p ∈ (itemLevel (kidsL T1 T2) (kidsR T1 T2) i [rootOf T1 T2]).map viewL,
+          c.1.parent = p.1.node ∧ p.2 ≤ c.2 ∧ c.2 + c.1.total ≤ p.2 + p.1.total)
+      ∧ SideOrdered ((itemLevel (kidsL T1 T2) (kidsR T1 T2) (i + 1) [rootOf T1 T2]).map viewL))
+    ∧ ((∀ c ∈ (itemLevel (kidsL T1 T2) (kidsR T1 T2) (i + 1) [rootOf T1 T2]).map viewR,
+        ∃ p ∈ (itemLevel (kidsL T1 T2) (kidsR T1 T2) i [rootOf T1 T2]).map viewR,
+          c.1.parent = p.1.node ∧ p.2 ≤ c.2 ∧ c.2 + c.1.total ≤ p.2 + p.1.total)
+      ∧ SideOrdered ((itemLevel (kidsL T1 T2) (kidsR T1 T2) (i + 1) [rootOf T1 T2]).map viewR)) :=
+  ⟨left_nest F1 F2 hc h1 h2 i, right_nest F1 F2 hc h1 h2 i⟩
+
+end DiffShape
+
+/-- **diff_delta_decodes.** The offsets written into a level (relative to the end of the previous bar, the
+    "double" flame-graph format) decode to the absolute left and right spans of the bars: the final loop of
+    `computeFlameGraphDiff` loses nothing. -/
+theorem diff_delta_decodes (bars : List Bar) :
+    decodeLevel 0 0 (encodeLevel 0 0 bars) = bars.map (fun b => (b.xl, b.xl + b.lt, b.xr, b.xr + b.rt)) :=
+  decode_encode bars 0 0
+
+/-- **diff_names_consistent.** The names table of the diff: no name twice (a name ↦ one index), one index per bar,
+    every index valid and pointing at the bar's name. -/
+theorem diff_names_consistent (ns : List String) :
+    (internNames [] ns).1.Nodup ∧ (internNames [] ns).2.length = ns.length
+      ∧ ∀ i (h : i < ns.length), ((internNames [] ns).1)[((internNames [] ns).2).getD i 0]? = some ns[i] := by
+  obtain ⟨a, _, b, c⟩ := internNames_spec ns [] (by simp)
+  exact ⟨a, b, c⟩
+
+/-- **diff_names_sync.** After `synchronizeNames` a function reads the left tree's name if the left table has the id,
+    else the right tree's, else "total" — whatever order Go's map iteration adds the missing entries in. -/
+theorem diff_names_sync (t1 t2 add : NameTab) (u1 : (t1.map (·.1)).Nodup) (u2 : (t2.map (·.1)).Nodup)
+    (hp : add.Perm (missingNames t1 t2)) (f : Nat) :
+    nameOf (syncNamesWith t1 add) f = if NameTab.has t1 f then nameOf t1 f else nameOf t2 f := by
+  rw [nameOf_sync_order u1 u2 hp f, nameOf_syncNames u1 u2 f]
+
+/-- **diff_names_side_free.** When the two tables give common ids the same name (ids are hashes of the names), it
+    does not matter which side lists a function, or lists it first: swapping the trees names every function alike. -/
+theorem diff_names_side_free (t1 t2 : NameTab) (u1 : (t1.map (·.1)).Nodup) (u2 : (t2.map (·.1)).Nodup)
+    (ha : NamesAgree t1 t2) (f : Nat) : nameOf (syncNames t1 t2) f = nameOf (syncNames t2 t1) f :=
+  nameOf_sync_comm u1 u2 ha f
+
+/-- **diff_end_to_end.** Two lists of profiles with non-negative values and no id collision among all of them: their
+    merged trees satisfy every hypothesis of the DIFF theorems above (one depth function, agreement on parents,
+    conservation, parent closure). -/
+theorem diff_end_to_end (hnr : NeverRoot nid) (Ps Qs : List Profile) (j : Nat)
+    (hj : ∀ P ∈ Ps ++ Qs, j < P.ntypes) (hc : NoCollision nid k na (Ps ++ Qs))
+    (hv : ∀ P ∈ Ps ++ Qs, ∀ s ∈ P.samples, 0 ≤ s.vals.getD j 0) :
+    TreeShaped (mergeTrie [] (inputRows (nid := nid) (k := k) (na := na) j Ps)) (depOf (allVisits nid k na (Ps ++ Qs)))
+      ∧ TreeShaped (mergeTrie [] (inputRows (nid := nid) (k := k) (na := na) j Qs)) (depOf (allVisits nid k na (Ps ++ Qs)))
+      ∧ Compatible (mergeTrie [] (inputRows (nid := nid) (k := k) (na := na) j Ps))
+                   (mergeTrie [] (inputRows (nid := nid) (k := k) (na := na) j Qs))
+      ∧ SideFacts (mergeTrie [] (inputRows (nid := nid) (k := k) (na := na) j Ps))
+      ∧ SideFacts (mergeTrie [] (inputRows (nid := nid) (k := k) (na := na) j Qs)) :=
+  diff_hypotheses hnr Ps Qs j hj hc hv
+
+/-- the hypotheses of the DIFF theorems are satisfiable: two small trees sharing a node -/
+example : SideFacts [⟨0, 5, 77, 1, 4⟩, ⟨77, 6, 88, 3, 3⟩] ∧ SideFacts [⟨0, 5, 77, 2, 9⟩, ⟨77, 7, 99, 7, 7⟩]
+    ∧ Compatible [⟨0, 5, 77, 1, 4⟩, ⟨77, 6, 88, 3, 3⟩] [⟨0, 5, 77, 2, 9⟩, ⟨77, 7, 99, 7, 7⟩] := by
+  refine ⟨⟨by decide, by decide, by decide, by decide⟩, ⟨by decide, by decide, by decide, by decide⟩, by unfold Compatible; decide⟩
+
+
+/-! ## the laws over `int64` (`BitVec 64`): what the code computes with wrap-around addition
+
+`wrap = BitVec.ofInt 64`. The `…64` definitions (`Qryn/Prof/Wrap64.lean`) are the tree builder, the projection, the
+ClickHouse GROUP BY, `MergeTrie` and `Total` with every `+` the 64-bit one. `int64_simulation` says they compute the
+wrap of what the `Int` model computes (no branch looks at a weight), so each conservation law holds of the 64-bit
+values as an equation of `BitVec 64` — also when the true sums exceed the `int64` range. The ORDER statements
+(`levels_nest`, `flamegraph_nests`, `diff_levels_nest`) are about integers: they hold of the code's values as long as
+the sums stay inside the range (`int64_exact_in_range`; non-negative values whose grand total is below 2^63). -/
+
+/-- **int64_simulation.** The 64-bit computation is the image of the `Int` model under `wrap`. -/
+theorem int64_simulation (P : Profile) (j : Nat) (T R : List Row) :
+    (treeMap P.ntypes (visits nid k na P)).map Node.wrap = treeMap64 P.ntypes ((visits nid k na P).map Visit.wrap)
+      ∧ (∀ n : Node, (typeRow j n).wrap = typeRow64 j n.wrap)
+      ∧ (mergeTrie T R).map Row.wrap = mergeTrie64 (T.map Row.wrap) (R.map Row.wrap)
+      ∧ (sqlGroup R).map Row.wrap = sqlGroup64 (R.map Row.wrap)
+      ∧ wrap (rootTotal T) = rootTotal64 (T.map Row.wrap)
+      ∧ wrap (valueSum P j) = valueSum64 (P.samples.map (fun s => s.vals.map wrap)) j :=
+  ⟨treeMap_wrap _ _, typeRow_wrap j, mergeTrie_wrap T R, sqlGroup_wrap R, rootTotal_wrap T, valueSum_wrap P j⟩
+
+/-- inside the `int64` range the bit pattern is the integer: the `Int` theorems then speak about the code's values -/
+theorem int64_exact_in_range (x : Int) (h : -2 ^ 63 ≤ x) (h' : x < 2 ^ 63) : (wrap x).toInt = x := wrap_exact x h h'
+
+/-- **node_conservation_int64.** `node_conservation` as an equation of `int64` values. -/
+theorem node_conservation_int64 (hnr : NeverRoot nid) (P : Profile) (hc : NoCollision nid k na [P])
+    (r : Node) (hr : r ∈ storedRows nid k na P) (j : Nat) (hj : j < P.ntypes) :
+    (typeRow64 j r.wrap).total = (typeRow64 j r.wrap).self
+      + sumTotals64 (children64 ((storedRows nid k na P).map (fun n => typeRow64 j n.wrap)) r.node) := by
+  have h := node_conservation nid k na hnr P hc r hr j hj
+  have e1 : (storedRows nid k na P).map (fun n => typeRow64 j n.wrap) = (typeRows j (storedRows nid k na P)).map Row.wrap := by
+    simp only [typeRows, List.map_map]
+    apply List.map_congr_left
+    intro n _
+    exact (typeRow_wrap j n).symm
+  rw [e1, ← children_wrap, ← sumTotals_wrap, ← typeRow_wrap]
+  show wrap (ntotal j r) = wrap (nself j r) + wrap _
+  rw [← wrap_add, h]
+  congr 2
+  unfold sumTotals children typeRows
+  rw [List.filter_map, List.map_map]
+  rfl
+
+/-- **root_total_int64.** -/
+theorem root_total_int64 (hnr : NeverRoot nid) (P : Profile)
+    (hc : NoCollision nid Gen.ProfTreeShape.emptyStackFrame na [P]) (j : Nat) (hj : j < P.ntypes) :
+    rootTotal64 ((storedRows nid Gen.ProfTreeShape.emptyStackFrame na P).map (fun n => typeRow64 j n.wrap))
+      = valueSum64 (P.samples.map (fun s => s.vals.map wrap)) j := by
+  have h := root_total nid na hnr P hc j hj
+  have e1 : (storedRows nid Gen.ProfTreeShape.emptyStackFrame na P).map (fun n => typeRow64 j n.wrap)
+      = (typeRows j (storedRows nid Gen.ProfTreeShape.emptyStackFrame na P)).map Row.wrap := by
+    simp only [typeRows, List.map_map]
+    apply List.map_congr_left
+    intro n _
+    exact (typeRow_wrap j n).symm
+  rw [e1, ← rootTotal_wrap, ← valueSum_wrap, ← h]
+  congr 1
+  unfold rootTotal sumTotals children typeRows
+  rw [List.filter_map, List.map_map]
+  rfl
+
+/-- **merged_conservation_int64.** The tree `MergeTrie` holds (64-bit sums of the rows of any list of profiles)
+    conserves weight at every node, as an equation of `int64` values. -/
+theorem merged_conservation_int64 (hnr : NeverRoot nid) (Ps : List Profile) (j : Nat) (hj : ∀ P ∈ Ps, j < P.ntypes)
+    (hc : NoCollision nid k na Ps) :
+    ∀ e ∈ mergeTrie64 [] ((inputRows (nid := nid) (k := k) (na := na) j Ps).map Row.wrap),
+      e.total = e.self + sumTotals64 (children64 (mergeTrie64 [] ((inputRows (nid := nid) (k := k) (na := na) j Ps).map Row.wrap)) e.node) := by
+  have hs := mergeTrie_wrap [] (inputRows (nid := nid) (k := k) (na := na) j Ps)
+  simp only [List.map_nil] at hs
+  rw [← hs]
+  intro e he
+  obtain ⟨e0, he0, rfl⟩ := List.mem_map.mp he
+  rw [← children_wrap, ← sumTotals_wrap]
+  show wrap e0.total = wrap e0.self + wrap (sumTotals (children _ e0.node))
+  rw [← wrap_add, ← merged_conservation nid k na hnr Ps j hj hc e0 he0]
+
+/-- **merged_root_total_int64.** `Tree.Total()` = the 64-bit sum of all sample values of all the profiles. -/
+theorem merged_root_total_int64 (hnr : NeverRoot nid) (Ps : List Profile) (j : Nat) (hj : ∀ P ∈ Ps, j < P.ntypes)
+    (hc : NoCollision nid Gen.ProfTreeShape.emptyStackFrame na Ps) :
+    rootTotal64 (mergeTrie64 [] ((inputRows (nid := nid) (k := Gen.ProfTreeShape.emptyStackFrame) (na := na) j Ps).map Row.wrap))
+      = sum64 (Ps.map (fun P => valueSum64 (P.samples.map (fun s => s.vals.map wrap)) j)) := by
+  have hs := mergeTrie_wrap [] (inputRows (nid := nid) (k := Gen.ProfTreeShape.emptyStackFrame) (na := na) j Ps)
+  simp only [List.map_nil] at hs
+  rw [← hs, ← rootTotal_wrap, merged_root_total nid na hnr Ps j hj hc, wrap_sum, List.map_map]
+  congr 1
+  apply List.map_congr_left
+  intro P _
+  exact valueSum_wrap P j
+
+/-- **merge_sums_int64.** Every node of the 64-bit merged tree carries the 64-bit sums of the rows with its key. -/
+theorem merge_sums_int64 (R : List Row) :
+    ∀ e ∈ mergeTrie64 [] (R.map Row.wrap),
+      e.total = sum64 (((R.map Row.wrap).filter (fun r => decide ((r.parent, r.node) = (e.parent, e.node)))).map (·.total))
+      ∧ e.self = sum64 (((R.map Row.wrap).filter (fun r => decide ((r.parent, r.node) = (e.parent, e.node)))).map (·.self)) := by
+  have hs := mergeTrie_wrap [] R
+  simp only [List.map_nil] at hs
+  rw [← hs]
+  intro e he
+  obtain ⟨e0, he0, rfl⟩ := List.mem_map.mp he
+  have := mergeTrie_entry R he0
+  constructor
+  · show wrap e0.total = _
+    rw [this.1, fsum, wrap_sum, List.filter_map, List.map_map, List.map_map]
+    rfl
+  · show wrap e0.self = _
+    rw [this.2, fsum, wrap_sum, List.filter_map, List.map_map, List.map_map]
+    rfl
+
+
+/-! ## merging pprof payloads (`ProfileMergeV2.Merge` / `Profile`, the merge behind `SelectMergeProfile`)
+
+Model `Qryn.Prof.Pprof` (lean/Qryn/Prof/PprofMerge.lean): `mergeAll MState.empty Ps` = one `Merge` call per decoded
+payload, `result` = `Profile()`. `.ok` = no payload was refused (`compatible`) and none lacks a period type. -/
+
+open Qryn.Prof.Pprof in
+/-- **merge_conserves_values.** For ALL lists of payloads `Merge` accepts and every sample type position `j`: the values
+    of the merged profile's samples add up to the values of the samples of the payloads — those payloads `Merge` does
+    not skip (no sample, fewer than two strings), and of each the samples `sanitizeProfile` keeps (a sample with a wrong
+    number of values or a dangling location id is dropped there: `inputTotal`). -/
+theorem merge_conserves_values (Ps : List PProfile) (st : MState) (h : mergeAll MState.empty Ps = .ok st) (j : Nat) :
+    valTotal (result st).samples j = inputTotal Ps j := by
+  have := mergeAll_vals Ps MState.empty st valInv_empty h j
+  have hs : (result st).samples = st.samples := by
+    unfold result
+    cases hh : st.header with
+    | none => simp [this.1.none_empty hh]
+    | some hd => rfl
+  rw [hs, this.2]
+  simp [valTotal, MState.empty]
+
+open Qryn.Prof.Pprof in
+/-- **merge_refs_valid.** For ALL lists of payloads `Merge` accepts — whatever their own references look like — every
+    reference of the merged profile resolves: each location id of a sample is the id of a merged location, each
+    location's mapping id and each line's function id are ids of merged mappings / functions, and every string index
+    (function names, mapping file names and build ids, label keys / values / units, sample and period types,
+    drop_frames, keep_frames, default_sample_type) lies inside the merged string table. (With the four repairs of this
+    extension; before them label units and the three header strings did not.) -/
+theorem merge_refs_valid (Ps : List PProfile) (st : MState) (h : mergeAll MState.empty Ps = .ok st) :
+    Resolves (result st) :=
+  result_resolves st (mergeAll_refs Ps MState.empty st refsOK_empty h)
+
+open Qryn.Prof.Pprof in
+/-- **merge_incremental_pprof.** Merging is a left fold: merging `Ps ++ Qs` is merging `Qs` into the state `Ps` left
+    (associativity of the accumulation; `MergeProfiles` relies on it when it streams the rows). -/
+theorem merge_incremental_pprof (Ps Qs : List PProfile) (st0 : MState) :
+    mergeAll st0 (Ps ++ Qs) = (match mergeAll st0 Ps with | .ok st => mergeAll st Qs | .error e => .error e) := by
+  induction Ps generalizing st0 with
+  | nil => simp [mergeAll]
+  | cons p Ps ih =>
+    simp only [List.cons_append, mergeAll]
+    cases mergeOne st0 p with
+    | ok st1 => exact ih st1
+    | error e => rfl
+
+open Qryn.Prof.Pprof in
+/-- **merge_total_order_free.** Per sample type the merged total does not depend on the order of the payloads
+    (any permutation that is accepted as well). -/
+theorem merge_total_order_free (Ps Qs : List PProfile) (hp : Ps.Perm Qs) (st st' : MState)
+    (h : mergeAll MState.empty Ps = .ok st) (h' : mergeAll MState.empty Qs = .ok st') (j : Nat) :
+    valTotal (result st).samples j = valTotal (result st').samples j := by
+  rw [merge_conserves_values Ps st h, merge_conserves_values Qs st' h']
+  exact sum_perm_int (hp.map _)
+
+
+open Qryn.Prof.Pprof in
+/-- **merge_sums_per_stack.** Read every sample through the tables it refers to — its stack: each location as its address and
+    the functions of its lines, each function as (start line, name, system name, file name) STRINGS; its string labels as
+    (key, value) STRINGS (`stStack`/`rLabelsK` in the merged tables, `inStack`/`inLabels` in a payload's own). For every class `Q`
+    of such (resolved stack, label set) pairs — `Q` must not depend on the order of the labels — and every value position:
+    the merged samples of the class carry the sum of the payloads' samples of the class. So `Merge` aggregates by stack and
+    string labels and never moves weight from one call stack or label set to another, whatever the ids and the string tables
+    of the payloads look like (shared, disjoint, permuted, repeated strings). Hypotheses: fewer than 2^32 functions and
+    strings (`hashLines` / `hashProfileLabels` pack two ids into one 64-bit word). -/
+theorem merge_sums_per_stack (Q : List RLoc → RLabels → Bool) (hQ : ∀ x a b, a.Perm b → Q x a = Q x b)
+    (Ps : List PProfile) (st : MState) (h : mergeAll MState.empty Ps = .ok st)
+    (hsmall : st.functions.length < 2 ^ 32) (hsmallS : st.strings.length < 2 ^ 32) (j : Nat) :
+    stackTotal Q st j = inputStackTotal Q Ps j := by
+  have := mergeAll_stacks Q hQ Ps MState.empty st valInv_empty refsOK_empty h hsmall hsmallS j
+  rw [this]
+  simp [stackTotal, valTotalK, MState.empty]
+
+open Qryn.Prof.Pprof in
+/-- **merge_order_free_per_stack.** Hence the weight of every resolved (stack, string labels) class is the same for every
+    order of the payloads — commutativity of the merge up to the numbering of the tables; together with
+    `merge_incremental_pprof` (merging `Ps ++ Qs` = merging `Qs` into the state of `Ps`) this is `merge_assoc_comm` for
+    the weights. -/
+theorem merge_order_free_per_stack (Q : List RLoc → RLabels → Bool) (hQ : ∀ x a b, a.Perm b → Q x a = Q x b)
+    (Ps Qs : List PProfile) (hp : Ps.Perm Qs) (st st' : MState)
+    (h : mergeAll MState.empty Ps = .ok st) (h' : mergeAll MState.empty Qs = .ok st')
+    (hs : st.functions.length < 2 ^ 32 ∧ st.strings.length < 2 ^ 32)
+    (hs' : st'.functions.length < 2 ^ 32 ∧ st'.strings.length < 2 ^ 32) (j : Nat) :
+    stackTotal Q st j = stackTotal Q st' j := by
+  rw [merge_sums_per_stack Q hQ Ps st h hs.1 hs.2, merge_sums_per_stack Q hQ Qs st' h' hs'.1 hs'.2]
+  exact sum_perm_int (hp.map _)
+
+open Qryn.Prof.Pprof in
+/-- **merge_conserves_values_wellformed.** For payloads whose references resolve (`WellFormed`: what pprof's `CheckValid`
+    demands, hence what the writer stores) nothing is dropped on the way in: per sample type the merged values add up to
+    ALL the values of all the payloads that have at least one sample and two strings. -/
+theorem merge_conserves_values_wellformed (Ps : List PProfile) (st : MState) (h : mergeAll MState.empty Ps = .ok st)
+    (hw : ∀ p ∈ Ps, WellFormed p) (j : Nat) :
+    valTotal (result st).samples j = (Ps.map (fun p => if skipped p then 0 else valTotal p.samples j)).sum := by
+  rw [merge_conserves_values Ps st h j]
+  unfold inputTotal
+  congr 1
+  apply List.map_congr_left
+  intro p hp
+  split
+  · rfl
+  · exact sanitize_keeps_values p (hw p hp) j
+
+/-- `WellFormed` is satisfiable, and so are the hypotheses of the pprof theorems (two payloads, shared function) -/
+example : Qryn.Prof.Pprof.WellFormed
+    ⟨["", "samples", "count", "main"], [⟨1, 2⟩], some ⟨1, 2⟩, [⟨[7], [5], []⟩, ⟨[], [2], []⟩], [], [⟨7, 0, 16, [⟨3, 10, 0⟩], false⟩],
+      [⟨3, 3, 3, 0, 1⟩], 0, 0, 0, 0, 0, [], 0⟩ := by
+  refine ⟨by decide, by decide, by decide, by decide⟩
+
+namespace MergeWitness
+open Qryn.Prof.Pprof
+/-- two payloads with one stackless sample each, labelled `bytes = 100` resp. `bytes = 200` (numeric labels) -/
+def pA : PProfile := ⟨["", "s", "c", "bytes"], [⟨1, 2⟩], some ⟨1, 2⟩, [⟨[], [1], [⟨3, 0, 100, 0⟩]⟩], [], [], [], 0, 0, 0, 0, 0, [], 0⟩
+def pB : PProfile := ⟨["", "s", "c", "bytes"], [⟨1, 2⟩], some ⟨1, 2⟩, [⟨[], [2], [⟨3, 0, 200, 0⟩]⟩], [], [], [], 0, 0, 0, 0, 0, [], 0⟩
+/-- what a reader of the merged profile sees of the samples: values and the numbers of the labels -/
+def view (r : Except MergeErr MState) : List (List Int × List Int) :=
+  match r with
+  | .ok st => (result st).samples.map (fun (s : PSample) => (s.vals, s.labels.map (·.num)))
+  | .error _ => []
+end MergeWitness
+
+open Qryn.Prof.Pprof MergeWitness in
+/-- the hypotheses of the payload-merge theorems are satisfiable: the two payloads are accepted, the tables are small -/
+example : (match mergeAll MState.empty [pA, pB] with
+    | .ok st => decide (st.functions.length < 2 ^ 32 ∧ st.strings.length < 2 ^ 32)
+    | .error _ => false) = true := by decide +kernel
+
+open Qryn.Prof.Pprof MergeWitness in
+/-- the full commutativity one might expect: the merged samples (values AND label numbers) do not depend on the order -/
+def merge_assoc_comm_full : Prop :=
+  ∀ Ps Qs : List PProfile, Ps.Perm Qs → (view (mergeAll MState.empty Ps)).Perm (view (mergeAll MState.empty Qs))
+
+open Qryn.Prof.Pprof MergeWitness in
+/-- … is FALSE: `GetSampleKey` hashes the label keys and string values only, so samples that differ in a NUMERIC label
+    (the allocation size classes of a heap profile) are merged into one and the number of the first payload is kept —
+    the values are conserved (`merge_conserves_values`, `merge_sums_per_stack`), the label is not order independent.
+    Recorded in the notes as observed (weights are what C16 is about). -/
+theorem merge_assoc_comm_counterexample : ¬ merge_assoc_comm_full := by
+  intro h
+  have := h [pA, pB] [pB, pA] (List.Perm.swap pB pA [])
+  have e1 : view (mergeAll MState.empty [pA, pB]) = [([3], [100])] := by decide +kernel
+  have e2 : view (mergeAll MState.empty [pB, pA]) = [([3], [200])] := by decide +kernel
+  rw [e1, e2] at this
+  have := this.subset (List.mem_singleton.mpr rfl)
+  simp at this
 
 /-! ## the hypotheses are satisfiable (and hold on a concrete case with the real `getNodeId`) -/
 
